@@ -60,9 +60,11 @@ def batches(ctx):
     for b in base:
         c = {"spe": 0, "dup": rng.randint(0, 5), "hgt": R.INF if rng.random() < 0.5 else rng.randint(0, 5), "floss": rng.randint(0, 5), "sloss": 1}
         cases.append({**b, "costs": c, "blank": rng.random() < 0.3})   # 30%: ancestors carry no names
+        if rng.random() < 0.3:   # same input object solved before while two subtrees hung elsewhere (recon.prime_topology)
+            cases[-1]["prime"] = "topology"
 
     def impl(c):
-        B = R.Built(c["S"], c["O"], c["costs"], blank_internal=c.get("blank", False))
+        B = R.primed(c, reconcile_lca, blank_internal=c.get("blank", False))
         out = reconcile_lca(B.input)
         return {"sol": B.canon(out), "cost": R.ext_of(out.cost())}
 
